@@ -172,7 +172,7 @@ def prop(spec, rec):
 def cases(draw):
     n = draw(st.integers(2, 6))
     ids = list(draw(st.permutations(sc.STATION_POOL)))[:n]
-    kind = draw(st.sampled_from(["scripted", "uncontrolled", "greedy", "greedy", "rr", "rr"]))
+    kind = draw(st.sampled_from(["scripted", "scripted", "uncontrolled", "greedy", "greedy", "rr", "rr"]))
     kinds = ("finite",) if kind in ("greedy", "rr") else ("cont0", "deadband", "finite")
     stations = [draw(sc.station_specs(i, kinds)) for i in ids]
     # arrivals pairwise distinct, departures pairwise distinct, estimated departures pairwise
@@ -216,6 +216,10 @@ def cases(draw):
     if kind == "scripted":
         sch = draw(sc.scripted_schedulers(stations))
         sch["probe"] = draw(st.booleans())
+        if sch["probe"]:
+            # schedules that name every station (in their own order) and are judged by
+            # interface.is_feasible before being submitted
+            sch["table"] = draw(st.lists(sc.schedule_entries(stations, max_len=2, empty_ok=False, full=True), min_size=1, max_size=4))
     elif kind == "uncontrolled":
         sch = {"kind": "uncontrolled", "max_recompute": draw(st.sampled_from([1, 1, 2, 3]))}
     else:
